@@ -98,7 +98,12 @@ def guarded_fields(prog):
 # Lock / ownership domain for the methods of ObjectPool
 # =====================================================================================
 Lin = namedtuple("Lin", "coef")  # linear combination of symbols: frozenset of (symbol, coefficient)
-Obj = namedtuple("Obj", "origin")  # 'created' | 'popped' | 'param' | 'snapshot'
+class Obj(namedtuple("Obj", "origin fresh")):
+    """A pooled object: origin = 'created' | 'popped:<field>' | 'param' | 'snapshot' | ...; fresh = outcome of the idle
+    test applied to *this* object (True passed / False expired / None not tested) - it travels with the value."""
+
+    def __new__(cls, origin, fresh=None):
+        return super().__new__(cls, origin, fresh)
 
 READ_OPS = {"__len__", "__bool__", "__iter__", "copy", "count", "index"}
 RW_OPS = {"popleft", "pop", "remove"}
@@ -116,7 +121,11 @@ def lin_add(a, b, sign=1):
     return Lin(frozenset((s, c) for s, c in d.items() if c != 0))
 
 
-Snapshot = namedtuple("Snapshot", "fields")  # a local copy of guarded deques: ((field, epoch), ...)
+class Snapshot(namedtuple("Snapshot", "fields objs")):
+    """A local list: copies of guarded deques ((field, epoch), ...) plus objects appended one by one."""
+
+    def __new__(cls, fields=(), objs=()):
+        return super().__new__(cls, tuple(fields), tuple(objs))
 
 
 class LockDomain(Domain):
@@ -220,7 +229,13 @@ class LockDomain(Domain):
             else:
                 self.problems.append(("idle-comparison-shape", "comparison `%s` is not of the form (now - last_used) vs idle_timeout" % node_src(node), node))
                 return state
-            return state.set("fresh", fresh)
+            # the verdict belongs to the object whose _last_used was read
+            st = state
+            for e in (lexpr, rexpr):
+                for n in ast.walk(e):
+                    if isinstance(n, ast.Attribute) and n.attr == "_last_used" and isinstance(n.value, ast.Name) and isinstance(st.get(n.value.id, None), Obj):
+                        st = st.set(n.value.id, Obj(st.get(n.value.id).origin, fresh))
+            return st
         return super().refine_compare(node, op, lexpr, l, rexpr, r, branch, state)
 
     def with_enter(self, item, value, state):
@@ -242,12 +257,15 @@ class LockDomain(Domain):
         if isinstance(itval, Opaque) and itval.tag.startswith("locallist:"):
             return [(Obj("from:" + itval.tag[10:]), state)]
         if isinstance(itval, Snapshot):
-            if not itval.fields:
-                return []  # an empty local list
-            st = state
-            if isinstance(node.target, ast.Name):
-                st = st.set(("snap", node.target.id), itval.fields)
-            return [(Obj("from-snapshot"), st)]
+            out = []
+            if itval.fields:
+                st = state
+                if isinstance(node.target, ast.Name):
+                    st = st.set(("snap", node.target.id), itval.fields)
+                out.append((Obj("from-snapshot"), st))
+            for o in dict.fromkeys(itval.objs):
+                out.append((o, state))  # an object appended to the local list keeps its origin (popped / created ...)
+            return out  # (empty for an empty local list)
         return super().for_next(node, itval, state)
 
     def name_load(self, name, state, node=None):
@@ -270,7 +288,7 @@ class LockDomain(Domain):
             if op in RW_OPS:
                 st = self._touch(field, "rw", node, state)
                 if op in ("popleft", "pop"):
-                    return [("ok", Obj("popped:" + field), st.drop("fresh")), ("exc", Exc(ORD, "IndexError", node.lineno), st)]
+                    return [("ok", Obj("popped:" + field), st), ("exc", Exc(ORD, "IndexError", node.lineno), st)]
                 # remove(obj): success => the caller owns obj (removed by this thread in this hold)
                 st_ok = st
                 if node.args and isinstance(node.args[0], ast.Name):
@@ -295,6 +313,9 @@ class LockDomain(Domain):
                     st = st.set(("ext", lst), tuple(sorted(set(st.get(("ext", lst), ())) | {(a.tag[6:], st.get("epoch"))})))
                     if isinstance(st.get(lst, None), Snapshot):
                         st = st.set(lst, Snapshot(tuple(sorted(set(st.get(lst).fields) | {(a.tag[6:], st.get("epoch") if st.get("lock") else -1)}))))
+        if isinstance(node.func, ast.Attribute) and node.func.attr == "append" and isinstance(node.func.value, ast.Name) and isinstance(st.get(node.func.value.id, None), Snapshot) and args and isinstance(args[0], Obj):
+            cur = st.get(node.func.value.id)
+            return [("ok", NONE, st.set(node.func.value.id, Snapshot(cur.fields, cur.objs + ((args[0],) if args[0] not in cur.objs else ()))))]
         if name in ("list", "tuple") and args and isinstance(args[0], Opaque) and args[0].tag.startswith("field:"):
             return [("ok", Snapshot(((args[0].tag[6:], st.get("epoch") if st.get("lock") else -1),)), st)]
         if name.startswith("self._") and name.count(".") == 1 and name[5:] not in ("_obj_creator", "_after_remove", "_idle_clock") and self.prog is not None:
@@ -338,7 +359,7 @@ class LockDomain(Domain):
         if isinstance(v, Obj):
             if v.origin.startswith("popped:"):
                 owned = True
-                if state.get("fresh") is True:
+                if v.fresh is True:
                     self.problems.append(("fresh-object-closed", "an object that passed the idle test is closed", node))
             elif v.origin.startswith("from:"):
                 lst = v.origin[5:]
